@@ -25,7 +25,10 @@ from ctmverif import markers_util as mu
 RULE = ('cases = (tree by level/branching profile incl. single-child chains '
         'and single-node levels, marker table with missing parents / empty '
         'lists / duplicates / genes only in Q, only in R, in neither / orphan '
-        'keys, |L(p)∩Q| aimed at m-1, m, m+1, Q and R shuffled, '
+        'keys, |L(p)∩Q| aimed at m-1, m, m+1, Q and R shuffled, queries '
+        'of 300-600 (thorough: 70 000) columns with markers beyond column '
+        '255 (65 535) against references of <= 255 / exactly 255 / 256 '
+        '(300) genes, '
         'min_markers in 0..6); pipeline cases add flatten / drop_level and a '
         'query matrix.  non-trivial = some consulted non-root parent has '
         'fewer than min_markers own markers in the query (fallback '
@@ -57,12 +60,6 @@ def predicate_cache(case, exp, cache, ser):
     tree = case['tree']
     table_keys = set(mu.key_str(None if k is None else tuple(k))
                      for k, _ in case['entries'])
-    all_q = set()
-    for name, (ri, qi) in cache['groups'].items():
-        all_q |= set(qi)
-    if cache['all_query_markers'] != sorted(all_q):
-        return ('C08/cache/all_query_markers',
-                'all_query_markers is not the sorted union of the groups')
     for p in exp['consulted']:
         ks = mu.key_str(p)
         if ks not in cache['groups']:
@@ -86,6 +83,12 @@ def predicate_cache(case, exp, cache, ser):
         if ser is not None and ser[0] == 'ok' and ser[1].get(ks) != rn:
             return ('C08/reported/differs',
                     'reported %r != used %r at %s' % (ser[1].get(ks), rn, ks))
+    all_q = set()
+    for name, (ri, qi) in cache['groups'].items():
+        all_q |= set(qi)
+    if cache['all_query_markers'] != sorted(all_q):
+        return ('C08/cache/all_query_markers',
+                'all_query_markers is not the sorted union of the groups')
     if cache.get('reconcile', 'ok') != 'ok':
         if None not in exp['consulted'] and 'None' not in table_keys:
             return (SIG_ROOT, 'reconcile_taxonomy_and_markers refuses (%s) a '
@@ -112,7 +115,7 @@ def predicate_cache(case, exp, cache, ser):
     return None
 
 
-def check_unit(ctx, case, label, workdir, metamorphic=True):
+def check_unit(ctx, case, label, workdir, metamorphic=True, use_model=True):
     exp = mu.expectation(case)
     v_verdict, v_out, _ = mu.impl_validate(case)
     c_verdict, cache, ser = mu.impl_create_cache(case, workdir)
@@ -177,7 +180,7 @@ def check_unit(ctx, case, label, workdir, metamorphic=True):
                           'genes used', dict(detail, permuted=c2))
             failed = True
     # ---- correspondence with the model ----
-    if ctx.driver_ok:
+    if ctx.driver_ok and use_model:
         can = mu.Canon(case)
         inp = {'tree': can.tree_json, 'lookup': can.lookup(case['entries']),
                'Q': can.ids(case['Q']), 'R': can.ids(case['R']),
@@ -610,6 +613,21 @@ def run(ctx):
             if i % 4 == 0:
                 for label, c2 in one_edit_variants(rng, case):
                     check_unit(ctx, c2, label, d, metamorphic=False)
+    if ctx.tier == 'thorough':
+        # around the 16-bit boundary: 300 reference genes (indices fit
+        # uint16), 70 000 query columns, markers beyond column 65 535;
+        # predicate only (the model's lists are not meant for this size)
+        with pipeline.workdir('ctmverif_c08h_') as d:
+            for _ in range(2):
+                case = mu.gen_case(rng, max_depth=3, pipeline_safe=True)
+                filler = ['hq%d' % j for j in range(70000)]
+                q0 = list(case['Q'])
+                k = rng.randint(0, 3000)
+                case['Q'] = filler[k:] + q0 + filler[:k]
+                case['R'] = case['R'] + ['rf%d' % j
+                                         for j in range(300 - len(case['R']))]
+                check_unit(ctx, case, 'huge_query', d, metamorphic=False,
+                           use_model=False)
     for i in range(n_pipe):
         if i % 3 == 2:
             check_pipeline(ctx, gen_pipeline_case(rng, aimed_drop=True),
@@ -649,6 +667,25 @@ def one_edit_variants(rng, case):
     c = cp()
     c['Q'] = ['zz%d' % i for i in range(3)]
     out.append(('disjoint_query', c))
+    # a query with MORE columns than the reference has genes: 300-600 extra
+    # genes in front, so that markers sit at query columns beyond 255 while
+    # the reference has <= 255 (sometimes exactly 255 / 256) genes: the
+    # query index of a cache row must still address the same gene name
+    c = cp()
+    filler = ['wq%d' % j for j in range(rng.randint(300, 600))]
+    q0 = list(c['Q'])
+    rng.shuffle(q0)
+    c['Q'] = filler + q0
+    if rng.random() < 0.5:
+        # keep a few fillers behind as well
+        k = rng.randint(1, 40)
+        c['Q'] = filler[k:] + q0 + filler[:k]
+    x = rng.random()
+    if x < 0.5:
+        want = 255 if x < 0.25 else 256
+        c['R'] = c['R'] + ['rf%d' % j for j in range(want - len(c['R']))]
+        rng.shuffle(c['R'])
+    out.append(('wide_query', c))
     # a gene name repeated in the query / reference list (name -> index:
     # the last position wins)
     c = cp()
